@@ -42,14 +42,20 @@ def trace_consts(nf, desc, mode, sem):
 def build(c):
     """go build ./cmd/keyorder with the overlay file that exports jsondb's unexported comparer (no tree edit)."""
     h = os.path.join(vlib.VERIF, "harness")
-    subprocess.run([sys.executable, os.path.join(h, "genmod.py"), vlib.REPO], check=True)
+    # per-run go.mod/go.sum (-modfile), as vlib.build does, so that concurrent checks with another VERIF_REPO cannot race
+    moddir = os.path.join(c.scratch, "mod")
+    os.makedirs(moddir, exist_ok=True)
+    subprocess.run([sys.executable, os.path.join(h, "genmod.py"), vlib.REPO, moddir], check=True)
+    if not os.path.exists(os.path.join(h, "go.mod")):
+        subprocess.run([sys.executable, os.path.join(h, "genmod.py"), "/repo"], check=True)
     ov = os.path.join(c.scratch, "overlay.json")
     src = os.path.join(h, "cmd", "keyorder", "overlay", "jsondb_verif_export.go.txt")
     json.dump({"Replace": {os.path.join(os.path.abspath(vlib.REPO), "jsondb", "verif_export.go"): src}}, open(ov, "w"))
     out = os.path.join(c.scratch, "bin", "keyorder")
     os.makedirs(os.path.dirname(out), exist_ok=True)
     t = time.time()
-    p = subprocess.run(["go", "build", "-tags", "verif", "-overlay", ov, "-o", out, "./cmd/keyorder"], cwd=h,
+    p = subprocess.run(["go", "build", "-modfile", os.path.join(moddir, "go.mod"), "-tags", "verif", "-overlay", ov, "-o", out,
+                        "./cmd/keyorder"], cwd=h,
                        env=vlib.go_env(), stdout=subprocess.PIPE, stderr=subprocess.STDOUT, text=True)
     if p.returncode != 0:
         raise vlib.InfraError("go build keyorder failed:\n%s" % p.stdout[-4000:])
